@@ -29,7 +29,9 @@ def passwd_file(sc):
     import crypt as _crypt  # noqa: deprecated but present in 3.11
     users = {}
     for u in sc.users:
-        ent = {"password": _crypt.crypt(u["password"] if isinstance(u["password"], str) else u["password"].decode(), "$6$verifsalt$")}
+        # "stored": the literal content of the password field (locked account "*", empty field, bare salt ...): no password opens it
+        ent = {"password": u["stored"] if "stored" in u else
+               _crypt.crypt(u["password"] if isinstance(u["password"], str) else u["password"].decode(), "$6$verifsalt$")}
         if u.get("auth") is not None:
             ent["auth"] = json.loads(D.jtext(u["auth"]))
         if u.get("readonly"):
